@@ -471,3 +471,23 @@ def run(ctx):
     rule_new_state(ctx, 'C19.L2.state', only=('_compute_1d',
                                               '_set_layered_opts', 'compute',
                                               'gradient', 'misfit'))
+    # a source given as two electrodes [[x1, y1, z1], [x2, y2, z2]] is handed
+    # to the 1D modeller as (x1, x2, y1, y2, z1, z2): column-major flattening
+    from ..core.template import find as _find
+    mp_ = ctx.repo.mod('emg3d/_multiprocessing.py')
+    lay_ = mp_.func('layered')
+    rv = [c for c in ast.walk(lay_) if isinstance(c, ast.Call) and isinstance(
+        c.func, ast.Attribute) and c.func.attr in ('ravel', 'flatten',
+                                                   'reshape') and any(
+        '.ndim == 2' in g or '.ndim==2' in g
+        for g in au.guard_texts(au.enclosing_stmt(c), lay_))]
+    okr = len(rv) == 1 and rv[0].func.attr in ('ravel', 'flatten') and (
+        [ast.unparse(a) for a in rv[0].args] == ["'F'"] or
+        {k.arg: ast.unparse(k.value) for k in rv[0].keywords} ==
+        {'order': "'F'"})
+    ctx.check('C19.L3.moment', 'layered: two-electrode coordinates in the '
+              'order of the 1D modeller', okr, 'a (2, 3) electrode array is '
+              'not flattened column-major (x1, x2, y1, y2, z1, z2): the 1D '
+              'modeller gets another bipole and the moment is taken from '
+              'the wrong coordinate differences',
+              ctx.where(mp_, rv[0] if rv else lay_))
